@@ -5,13 +5,13 @@ import os
 import shutil
 import signal
 
-from . import build, gen_lock, gen_prog, lockstep, p10, prng
+from . import build, gen_lock, gen_prog, lockstep, p10, prng, exhaust
 from .harness import new_result, fail, bump, RunTimeout
 
 PROP = 'C06'
 RUNS = {'quick': 30000, 'thorough': 1500000}
 BUDGET_S = {'quick': 150, 'thorough': 2400}
-CHUNK = 400
+CHUNK = 100
 PROPS = {'C06'}
 
 def init():
@@ -19,6 +19,8 @@ def init():
     p10.init()
 
 def gen(rng, tier, index):
+    if index < len(exhaust.TEMPLATES):
+        return {'kind': 'exhaust', 'template': list(exhaust.TEMPLATES[index]), 'machine': '48K'}
     if index % 8 < 6:
         return gen_lock.gen_wstep(rng, tier, index // 8 * 6 + index % 8)
     if index % 16 == 7:
@@ -171,7 +173,20 @@ def run_tool(scn, res):
     finally:
         shutil.rmtree(wd, ignore_errors=True)
 
+def run_exhaust(scn):
+    res = new_result()
+    bad, n = exhaust.run(tuple(scn['template']), ['py', 'c', 'pycmio', 'ccmio'], False, lambda vc, d: (vc, d))
+    bump(res, 'events', n)
+    bump(res, 'table_entries_compared', n)
+    if bad:
+        return fail(res, bad[0], bad[1])
+    res['sigs'] = ['exhaust|%s' % '-'.join(str(x) for x in scn['template'])]
+    res['digest'] = hashlib.sha256(('%s|%d' % (scn['template'], n)).encode()).hexdigest()
+    return res
+
 def run(scn):
+    if scn['kind'] == 'exhaust':
+        return run_exhaust(scn)
     if scn['kind'] == 'batch':
         return run_batch(scn, new_result())
     if scn['kind'] == 'tool':
@@ -187,6 +202,8 @@ def run(scn):
     return res
 
 def sample(scn, res):
+    if scn['kind'] == 'exhaust':
+        return scn
     if scn['kind'] == 'tool':
         return {k: v for k, v in scn.items() if k != 'prog'}
     if scn['kind'] == 'batch':
@@ -205,7 +222,7 @@ def shrink_candidates(scn):
             if scn[k]:
                 c = cp(); c[k] = 0 if k == 'verbose' else False; yield c
         return
-    if scn['kind'] == 'batch':
+    if scn['kind'] in ('batch', 'exhaust'):
         return
     for c in gen_lock.shrink_candidates(scn):
         yield c
